@@ -129,7 +129,8 @@ def main():
     ev = dict(property_id=pid, tier=a.tier, seed=seed, level="proof", coverage=cov,
               assumptions=list(getattr(mod, "ASSUMPTIONS", [])), wall_s=round(time.time() - ctx.t0, 2),
               violations=len(new_viol) + (1 if (broken and not new_viol) else 0))
-    common.write_json(os.path.join(VERIF, "evidence", pid + ".json"), ev)
+    debug_run = a.no_lean or os.environ.get("VERIF_REPO") not in (None, "", "/repo")
+    common.write_json(os.path.join(VERIF, "evidence", ("_debug_" if debug_run else "") + pid + ".json"), ev)
     print("%s %s tier=%s seed=%d: %d theorems (%d discharged), %d model/impl comparisons (%d differ), "
           "%d oracle evaluations (%d new violations, %d known), %.1fs" % (
               pid, "OK" if rc == 0 else "FAIL", a.tier, seed, len(thms), discharged, ctx.corr_total,
